@@ -109,7 +109,7 @@ def histories(draw):
         steps.append([draw(st.sampled_from(["minimize", "maximize"])), draw(st.integers(0, len(OBJECTIVES) - 1))])
     for _ in range(draw(st.integers(2, 11))):
         k = draw(st.sampled_from(["minimize", "maximize", "flip", "flip", "subject_to", "subject_to", "subject_to_list", "set_lb", "set_ub",
-                                  "set_elem_lb", "set_elem_ub", "subject_to_bad_list",
+                                  "set_elem_lb", "set_elem_ub", "subject_to_bad_list", "bad_objective",
                                   "solve", "solve", "solve", "variables", "n_variables", "get_bounds"]))
         if k in ("minimize", "maximize"):
             steps.append([k, draw(st.integers(0, len(OBJECTIVES) - 1))])
@@ -123,6 +123,13 @@ def histories(draw):
             # a list whose LAST item is not a constraint (a nested list / a bare expression): the call is rejected
             steps.append([k, draw(st.lists(st.integers(0, len(CONSTRAINTS) - 1), min_size=1, max_size=2)),
                           draw(st.sampled_from(["nested-list", "expression"]))])
+        elif k == "bad_objective":
+            # minimize / maximize called with something that is not an expression: the call is rejected and must leave
+            # objective, orientation and everything derived from them as they were
+            steps.append([k, draw(st.sampled_from(["minimize", "maximize"])), draw(st.sampled_from(["string", "none", "list"]))])
+            if draw(st.booleans()) and nsolves < 5:
+                nsolves += 1
+                steps.append(["solve", draw(st.sampled_from(METHODS))])
         elif k in ("set_lb", "set_ub"):
             steps.append([k, draw(st.sampled_from(VARS)), draw(st.sampled_from(BOUNDS))])
         elif k in ("set_elem_lb", "set_elem_ub"):
@@ -141,8 +148,12 @@ def histories(draw):
         m = draw(st.sampled_from(["auto", "linprog", "solve_lp()"]))
         steps += [[draw(st.sampled_from(["minimize", "maximize"])), 6], ["subject_to", draw(st.sampled_from([10, 11]))], ["solve", m]]
         for _ in range(draw(st.integers(1, 2))):
-            e = draw(st.sampled_from(["row", "elem", "elem", "vec"]))
-            if e == "row":
+            e = draw(st.sampled_from(["row", "elem", "elem", "vec", "free-all"]))
+            if e == "free-all":
+                # every bound of every variable removed (nothing else edited)
+                for nm_ in VARS:
+                    steps += [["set_lb", nm_, None], ["set_ub", nm_, None]]
+            elif e == "row":
                 steps.append(["subject_to", draw(st.sampled_from([4, 5, 9, 10, 11]))])
             elif e == "elem":
                 steps.append([draw(st.sampled_from(["set_elem_lb", "set_elem_ub"])), draw(st.integers(0, 11)), draw(st.sampled_from([-2, 0, 1, 3, 2, 5]))])
@@ -298,6 +309,14 @@ def check(case):
                 P.subject_to(flat)
                 state.cons.append(list(step[1]))
                 edits_since.append(k)
+            elif k == "bad_objective":
+                bad = {"string": "not an expression", "none": None, "list": [1, 2]}[step[2]]
+                try:
+                    (P.minimize if step[1] == "minimize" else P.maximize)(bad)
+                    classes.append("bad-objective:accepted")
+                    return Result.inconclusive("bad-objective-accepted", classes)
+                except Exception:
+                    classes.append("bad-objective:rejected")
             elif k == "subject_to_bad_list":
                 items, sizes = [], []
                 for j in step[1]:
